@@ -10,7 +10,7 @@ ASSUMPTIONS = ['bit-list model written from README.rst and the Bits.load docstri
 ANCHORS = [('bits.py', 'Bits.__init__'), ('bits.py', 'Bits.load'), ('bits.py', 'reverse_byte'), ('bits.py', 'pack'), ('bits.py', 'unpack'),
            ('bits.py', 'Bits.bit'), ('bits.py', 'Bits.int'), ('bits.py', 'Bits.__str__'), ('bits.py', 'Bits.__bytes__'), ('bits.py', 'Bits.hex'),
            ('bits.py', 'Bits.todots'), ('bits.py', 'Bits.bitlist'), ('bits.py', 'Bits.__iter__')]
-REQUIRED = ['ctor-int', 'ctor-list', 'ctor-bytes', 'ctor-bits', 'conv:int', 'conv:signed', 'conv:str', 'conv:bytes', 'conv:pack<', 'conv:pack>',
+REQUIRED = ['load-after-history', 'ctor-int', 'ctor-list', 'ctor-bytes', 'ctor-bits', 'conv:int', 'conv:signed', 'conv:str', 'conv:bytes', 'conv:pack<', 'conv:pack>',
             'conv:bitlist', 'conv:bit(i)', 'rt:bytes', 'rt:bitlist', 'rt:pack/unpack<', 'rt:pack/unpack>', 'unpack==from_bytes']
 NSHARDS = 13
 SAN = {'quick': (3, 8), 'thorough': (3, 4)}
@@ -48,6 +48,10 @@ def cases(tier, rng):
             for d in (-1, 0, 1):
                 for pat in ('rand', 'zero', 'ones', 'walk'):
                     yield {'k': 'big', 'n': (1 << e) + d, 'pat': pat}
+        for L in (0, 1, 2, 3, 4, 6, 8, 12, 16):
+            for bo in (-1, 1, 0, 2, -2, 4):
+                for prev in ('int', 'bytes', 'list', 'failed-load', 'loaded-twice'):
+                    yield {'k': 'reload', 'L': L, 'bo': bo, 'prev': prev}
         for n in (24, 31, 33, 63, 65, 100, 127, 129, 1000):
             for pat in ('rand', 'ones', 'walk'):
                 yield {'k': 'big', 'n': n, 'pat': pat}
@@ -126,6 +130,29 @@ def run(case, ctx, rng):
             conversions(ctx, B, b, bits, light=True)
         if bo in (0, 1) and size is None:
             ctx.eq('ctor-bytes:int.from_bytes', BM.value(bits), int.from_bytes(s, 'little' if bo == 1 else 'big'))
+    elif k == 'reload':
+        # history: load() on a vector that already holds something (or whose previous load() was refused)
+        L, bo, prev = case['L'], case['bo'], case['prev']
+        if bo not in (-1, 0, 1) and L % abs(bo):
+            L += abs(bo) - L % abs(bo)
+        s = rng.randbytes(L)
+        ctx.cls(('reload', prev, 'bo=%d' % bo, min(L, 5)))
+        def f():
+            if prev == 'int': b = B(rng.getrandbits(70) | (1 << 69), 70)
+            elif prev == 'bytes': b = B(rng.randbytes(9), bitorder=1)
+            elif prev == 'list': b = B([1] * 13)
+            elif prev == 'loaded-twice':
+                b = B(b'\xff' * 7); b.load(rng.randbytes(5), 1)
+            else:
+                b = B(b'\xff' * 5, bitorder=1)
+                try: b.load(b'\xaa' * 7, 2)           # refused: 7 is not a multiple of 2
+                except ValueError: pass
+            b.load(s, bo)
+            return b
+        b = call(f)
+        bits = BM.from_bytes(s, bo)
+        if same(ctx, 'load-after-history', b, bits, s=s, bitorder=bo, prev=prev):
+            conversions(ctx, B, b, bits, light=True)
     elif k == 'packrt':
         L = case['L']
         s = pattern(rng, L, case['pat'])
